@@ -42,6 +42,12 @@ def tables_close(a, b, rel=1e-9):
         sliver = any(k in ("Trace Min Length", "Branch Min Length") and x is not None and 0 < x < 1e-6 for k, x in list(va) + list(vb))
         if sliver:
             continue
+        # a trace touching the sample circle from inside is cut there into two pieces or left whole depending on the last bit of the radius: the total length inside (P21, B21)
+        # is the same, the piece counts and the min / max / mean lengths are not -- such a cell is not crisp either
+        da, db = dict(va), dict(vb)
+        same_total = all(da.get(k) is not None and db.get(k) is not None and abs(da[k] - db[k]) <= rel * max(1.0, abs(da[k])) for k in ("Fracture Intensity P21", "Fracture Intensity B21"))
+        if same_total and any(da.get(k) != db.get(k) for k in ("Number of Traces (Real)", "Number of Branches (Real)")):
+            continue
         for (ka, xa), (kb, xb) in zip(va, vb):
             if ka != kb or (xa is None) != (xb is None):
                 return False
